@@ -119,6 +119,13 @@ def _family(case, m):
             "loop_with_2_breaks_one_leads_to_other_equiv.puml":
         return "PV-F-G-corpus-break-target-shared-with-loop-exit"
     f = m.features
+    # the loop families need the loop to be *observed*: if no job repeats an
+    # event type the directly-follows graph of a definition with distinct
+    # names is acyclic and the loop code of the learner never runs
+    if not any(len({t for t, _ in j}) < len(j) for j in m.jobs):
+        f = tuple(x for x in f if x not in (
+            "break_multi_loop_last", "break_loop_tail_of_loop",
+            "break_loop_tail_of_fork_ending_loop"))
     if "break_multi_loop_last" in f:
         return "PV-F-B-trailing-loop-multi-event-break"
     if "break_loop_tail_of_loop" in f:
